@@ -59,7 +59,16 @@ class Harness:
 
             for inp in itertools.chain(cands, self.inputs(payload.get("tier", "quick"), payload.get("seed", 0))):
                 cases += 1
-                bad = self.check(inp)
+                try:
+                    bad = self.check(inp)
+                except Exception as e:  # noqa: BLE001
+                    # an exception that comes out of the code under test is an observation about that code, not a harness failure
+                    tb = traceback.extract_tb(e.__traceback__)
+                    inner = [f for f in tb if "/asimap/" in f.filename and "/asimap/test/" not in f.filename]
+                    if not inner or "/harness/" in tb[-1].filename:
+                        raise
+                    f = inner[-1]
+                    bad = {"observed": f"{type(e).__name__}: {e} at {f.filename.split('/')[-1]}:{f.lineno} in {f.name}", "clause": "the real code raised while the oracle exercised it"}
                 hit = []
                 if bad:
                     # a known finding is identified by the input class AND, where the predicate takes two arguments, by the clause
